@@ -1,9 +1,9 @@
 package checks
 
 import (
-	"os"
 	"encoding/json"
 	"fmt"
+	"os"
 	"path/filepath"
 	"time"
 
@@ -37,10 +37,13 @@ type TVReject struct {
 // monitor module over them and returns which traces break which rule. A trace that breaks a
 // rule is removed and the remaining ones are validated again, so one violation never hides
 // another. Any other failure of TLC marks the check as broken.
+// tvMaxRounds bounds how many violating traces are singled out per batch (each needs one more TLC run).
+var tvMaxRounds = 12
+
 func ValidateTraces(c *core.Ctx, specName, module, cfg string, traces []*Trace, defaults map[string]any) *TVResult {
 	res := &TVResult{}
 	rest := traces
-	for round := 0; round < 12 && len(rest) > 0; round++ {
+	for round := 0; round < tvMaxRounds && len(rest) > 0; round++ {
 		dir, err := c.SpecDir(specName)
 		if err != nil {
 			c.Broken("spec dir: %v", err)
@@ -112,7 +115,7 @@ func ValidateTraces(c *core.Ctx, specName, module, cfg string, traces []*Trace, 
 		}
 		rest = append([]*Trace{}, rest[ti+1:]...)
 	}
-	if len(rest) > 0 && len(res.Rejected) >= 12 {
+	if len(rest) > 0 && len(res.Rejected) >= tvMaxRounds {
 		// many violations: the remaining traces are not judged (reported in the evidence)
 		c.Add("traces_not_judged_after_12_violations", int64(len(rest)))
 	}
